@@ -26,7 +26,8 @@ LEVEL_ASSUMPTIONS = [
     "counted as undecided (never as held)",
     "analytic comparison tolerance 5e-2 relative to max |state| (RK45 "
     "rtol=1e-3; wrong time grid or interpolator gives O(1))"]
-REQUIRED = {"runs_judged": 300, "full_length_results": 150,
+REQUIRED = {"multi_control_runs": 20, "direct_j_tables": 300,
+            "direct_j_control_dims[2]": 50, "runs_judged": 300, "full_length_results": 150,
             "failure_rows": 20, "multi_cycle_runs": 20,
             "analytic_comparisons": 30, "j_recomputed": 200,
             "control_entries_rechecked": 5000}
@@ -360,6 +361,60 @@ def linear_analytic(ctx, rng):
              case, analytic=expm_solution(M, s0))
 
 
+def multi_control(ctx, rng):
+    """Linear system with 2-3 control outputs that differ per channel."""
+    n = int(rng.choice([2, 3]))
+    c = int(rng.choice([2, 3]))
+    A = (rng.uniform(-0.5, 0.5, (n, n)) - 0.4 * np.eye(n)).tolist()
+    B = rng.uniform(-0.5, 0.5, (n, c))
+    K = rng.uniform(-0.4, 0.4, (c, n))
+    off = rng.uniform(-1.0, 1.0, c)
+
+    def eq(state, t, control, out):
+        out[:] = np.array(A) @ state + B @ control
+
+    def ctrl(state, t, params, out):
+        out[:] = K @ state + off * math.sin(0.7 * t)
+
+    start = [float(v) for v in rng.uniform(-1, 1, n)]
+    steps = int(rng.choice([10, 11, 50]))
+    tmax = float(rng.choice([0.5, 2.0, 5.0]))
+    use = int(rng.integers(0, n + 1)) - (1 if rng.integers(3) == 0 else 0)
+    gamma = float(rng.choice([0.1, 0.5, 2.0]))
+    case = {"kind": "multi", "A": A, "B": B.tolist(), "K": K.tolist(),
+            "off": off.tolist(), "start": start, "steps": steps,
+            "tmax": tmax, "use": use, "gamma": gamma}
+    ctx.count("multi_control_runs")
+    run_case(ctx, (eq, ctrl, c), start, steps, tmax, None, case, use=use,
+             gamma=gamma)
+
+
+def direct_j(ctx, rng):
+    """j_from_ode / diff_from_ode on hand-made result tables."""
+    n = int(rng.integers(1, 5))
+    c = int(rng.integers(1, 4))
+    rows = int(rng.integers(2, 12))
+    t = np.cumsum(rng.uniform(0.01, 2.0, rows))
+    t[0] = 0.0
+    t = np.sort(t)
+    for i in range(1, rows):
+        if t[i] <= t[i - 1]:
+            t[i] = t[i - 1] + 0.01
+    ode = np.empty((rows, n + c + 1))
+    ode[:, :n + c] = rng.uniform(-5, 5, (rows, n + c))
+    ode[:, -1] = t
+    use = int(rng.integers(-1, n + 1))
+    gamma = float(rng.choice([0.0, 0.1, 1.0, 3.0]))
+    case = {"kind": "directj", "ode": ode.tolist(), "n": n, "use": use,
+            "gamma": gamma}
+    ctx.case()
+    ctx.count("direct_j_tables")
+    ctx.count(f"direct_j_control_dims[{c}]")
+    judge_j(ctx, ode, n, use, gamma, case)
+    if c >= 2:
+        ctx.nontrivial(case)
+
+
 def hostile(ctx, rng):
     kind = str(rng.choice(["now", "after", "nan", "inf", "-inf", "9.9e9",
                            "grow", "nan-at-0", "square", "start1e9",
@@ -408,6 +463,10 @@ def run_shard(ctx, args):
     rng = ctx.rng
     for it in range(args["n"]):
         k = it % 5
+        for _ in range(3):
+            direct_j(ctx, rng)
+        if it % 7 == 0:
+            multi_control(ctx, rng)
         if k in (0, 1):
             bundled(ctx, rng, it)
         elif k == 2:
@@ -443,6 +502,22 @@ def replay(ctx, case):
                  case["start"], case["steps"], case["tmax"],
                  np.array(case["params"]), case, use=sysm.state_dims_in_j,
                  gamma=sysm.gamma)
+    elif k == "directj":
+        ctx.case()
+        judge_j(ctx, np.array(case["ode"]), case["n"], case["use"],
+                case["gamma"], case)
+    elif k == "multi":
+        A, B = np.array(case["A"]), np.array(case["B"])
+        K, off = np.array(case["K"]), np.array(case["off"])
+
+        def eq(state, t, control, out):
+            out[:] = A @ state + B @ control
+
+        def ctrl(state, t, params, out):
+            out[:] = K @ state + off * math.sin(0.7 * t)
+        run_case(ctx, (eq, ctrl, B.shape[1]), case["start"], case["steps"],
+                 case["tmax"], None, case, use=case["use"],
+                 gamma=case["gamma"])
     else:
         what = case["what"]
         A = [[-0.1, -1.0], [1.0, -0.1]]
